@@ -911,9 +911,21 @@ def judge_classes(case):
                  expected=exp)
         return out
     expn = {p: _plain(v) for p, v in exp.items()}
+
+    def same(a, b):
+        # numbers up to rounding (a heading goes through an orientation and back: 0.875 comes
+        # out as 0.8750000000000001), everything else exactly
+        if isinstance(a, bool) or isinstance(b, bool):
+            return a == b
+        if isinstance(a, (int, float)) and isinstance(b, (int, float)):
+            return abs(a - b) <= 1e-9 * max(1.0, abs(a), abs(b))
+        if isinstance(a, (list, tuple)) and isinstance(b, (list, tuple)) and len(a) == len(b):
+            return all(same(x, y) for x, y in zip(a, b))
+        return a == b
+
     for o in obs:
-        if o[1] != expn:
-            wrong = sorted(p for p in expn if o[1].get(p) != expn[p])
+        if not (set(o[1]) == set(expn) and all(same(o[1][p], expn[p]) for p in expn)):
+            wrong = sorted(p for p in expn if p not in o[1] or not same(o[1][p], expn[p]))
             distinct = {json.dumps(x[1], sort_keys=True) for x in obs}
             out.fail(f"{cell}|" + ("order-dependent-values" if len(distinct) > 1 else "wrong-values"),
                      source=src, wrong_props=wrong, expected={p: expn[p] for p in wrong},
